@@ -63,13 +63,38 @@ def run_limited(fn, args=(), timeout=20.0):
     return r
 
 
+class CallTimeout(Exception):
+    pass
+
+
+CALL_LIMIT = float(os.environ.get("VERIF_CALL_LIMIT", "20"))
+
+
 def call(fn, *args, **kw):
-    """call implementation code, mapping exceptions to ('err', kind)"""
+    """call implementation code, mapping exceptions to ('err', kind); a call that does not return within CALL_LIMIT seconds
+    (LaPy's flood loops are Python-level `while` loops that may spin for ever on input they do not expect) is interrupted and
+    reported as ('err', 'Timeout')"""
+    import signal
+    import threading
+    use_alarm = threading.current_thread() is threading.main_thread() and hasattr(signal, "setitimer")
+    if use_alarm:
+        def on_alarm(signum, frame):
+            raise CallTimeout("call exceeded %.0f s" % CALL_LIMIT)
+        old_handler = signal.signal(signal.SIGALRM, on_alarm)
+        old_timer = signal.setitimer(signal.ITIMER_REAL, CALL_LIMIT)
     try:
         with quiet():
             return ("ok", fn(*args, **kw))
+    except CallTimeout as e:
+        return ("err", "Timeout", str(e))
     except Exception as e:  # noqa: BLE001
         return ("err", type(e).__name__, str(e)[:200])
+    finally:
+        if use_alarm:
+            signal.setitimer(signal.ITIMER_REAL, 0)
+            signal.signal(signal.SIGALRM, old_handler)
+            if old_timer and old_timer[0] > 0:
+                signal.setitimer(signal.ITIMER_REAL, old_timer[0])
 
 
 def jsonable(x):
